@@ -168,11 +168,15 @@ Theorem verify_event_pseudoid_invited_self_signed : forall ver j e sk valid self
   e_state_key e = Some sk -> self_valid sk = true.
 Proof. exact pseudoid_invited_must_self_sign. Qed.
 
+(* repair F60: the mapping of a join is for the room key that sent the event, and the server of the
+   user it names (spec.NewUserID, C17's model) is the one REQUIRED server of the mapping *)
 Theorem verify_event_pseudoid_join_mapping_verified : forall ver j e valid self_valid verr,
   verify_event_pseudoid ver j valid self_valid verr = true ->
   read_event j = Some e -> e_type e = m_room_member -> membership_of e = Some k_join ->
-  verr = false /\ exists l, mxid_mapping e = MServers l /\ forall s, In s l -> valid s = true.
-Proof. exact pseudoid_join_mapping_signers_must_verify. Qed.
+  verr = false /\
+  exists u l d, mxid_mapping e = MMapping (e_sender e) u /\ Ident.Ids.user_id_parse true u = Some (l, d) /\
+                valid d = true.
+Proof. exact pseudoid_join_mapping_must_verify. Qed.
 
 (* ---- non-vacuity: concrete well-formed events, their required servers, their verdicts ---- *)
 Definition ex_json (s : string) : json := match parse_json (bs s) with Some j => j | None => JNull end.
@@ -209,16 +213,21 @@ Example ex_restricted_join_required :
   strict_validity (bs "9") = true /\ strict_validity (bs "4") = false.
 Proof. vm_compute. repeat split; try reflexivity. discriminate. Qed.
 
-(* pseudo-ID version: a join whose mxid_mapping carries no signature at all verifies as soon as the
-   event is self-signed by the pseudo ID, whatever the caller's key ring says (the mapping claims
-   the user @victim:a.example) -- the behaviour of the code, recorded here, not a required one *)
+(* pseudo-ID version (repair F60): a join whose mxid_mapping names @victim:a.example verifies exactly
+   when a.example's signature over the mapping verifies (whatever other servers signed) and the
+   mapping is for the sender's room key *)
 Definition ex_pseudoid_join : json := ex_json
   "{""type"":""m.room.member"",""sender"":""PSEUDOKEY"",""state_key"":""PSEUDOKEY"",""room_id"":""!r:a.example"",""origin_server_ts"":5,""content"":{""membership"":""join"",""mxid_mapping"":{""user_room_key"":""PSEUDOKEY"",""user_id"":""@victim:a.example""}}}".
+Definition ex_pseudoid_join_other_key : json := ex_json
+  "{""type"":""m.room.member"",""sender"":""PSEUDOKEY"",""state_key"":""PSEUDOKEY"",""room_id"":""!r:a.example"",""origin_server_ts"":5,""content"":{""membership"":""join"",""mxid_mapping"":{""user_room_key"":""OTHERKEY"",""user_id"":""@victim:a.example""}}}".
 
-Example pseudoid_unsigned_mapping_accepted :
-  verify_event_pseudoid (bs "org.matrix.msc4014") ex_pseudoid_join
-    (fun _ => false) (fun n => bytes_eqb n (bs "PSEUDOKEY")) false = true.
-Proof. vm_compute. reflexivity. Qed.
+Example pseudoid_mapping_requires_the_users_server :
+  let self := fun n => bytes_eqb n (bs "PSEUDOKEY") in
+  verify_event_pseudoid (bs "org.matrix.msc4014") ex_pseudoid_join (fun _ => false) self false = false /\
+  verify_event_pseudoid (bs "org.matrix.msc4014") ex_pseudoid_join (fun s => bytes_eqb s (bs "evil.example")) self false = false /\
+  verify_event_pseudoid (bs "org.matrix.msc4014") ex_pseudoid_join (fun s => bytes_eqb s (bs "a.example")) self false = true /\
+  verify_event_pseudoid (bs "org.matrix.msc4014") ex_pseudoid_join_other_key (fun _ => true) self false = false.
+Proof. vm_compute. repeat split; reflexivity. Qed.
 
 (* ---- refuted: members under names the specification does not know do not always leave the
    required servers unchanged (finding F-C06-1).  encoding/json takes the member named
